@@ -379,10 +379,71 @@ pub fn c14_plan(tier: Tier) -> Plan {
             }),
         });
     }
+    // larger pools: a bound of 9..24 workers and more long-lived jobs than that
+    {
+        let n = if tier == Tier::Quick { 600 } else { 20_000 };
+        spaces.push(Space {
+            name: "P.burst.large",
+            size: n,
+            exhaustive: false,
+            gen: Box::new(move |_idx, seed| {
+                let mut rng = Rng::new(seed);
+                let initial = rng.range(1, 3) as usize;
+                let max = *rng.pick(&[8usize, 9, 10, 12, 16, 20, 24]);
+                let k = max + rng.range(0, 4) as usize;
+                let mut ops = Vec::new();
+                for _ in 0..k {
+                    ops.push(POp::Submit);
+                    if rng.chance(1, 5) {
+                        ops.push(POp::Quiesce);
+                    }
+                }
+                crate::cases::Case::P(PCase { initial, max, ops, sched: SchedCfg::random(&mut rng, 0) })
+            }),
+        });
+    }
+    // long histories: the pool grows, drains, and is loaded again, several times over
+    {
+        let n = if tier == Tier::Quick { 2_000 } else { 60_000 };
+        spaces.push(Space {
+            name: "P.history.long",
+            size: n,
+            exhaustive: false,
+            gen: Box::new(move |_idx, seed| {
+                let mut rng = Rng::new(seed);
+                let initial = rng.range(1, 3) as usize;
+                let max = rng.range(1, 4) as usize;
+                let mut ops = Vec::new();
+                let mut sub = 0usize;
+                let mut open: Vec<usize> = Vec::new();
+                for _ in 0..rng.range(3, 8) {
+                    // a wave of load ...
+                    for _ in 0..rng.range(1, 5) {
+                        ops.push(POp::Submit);
+                        open.push(sub);
+                        sub += 1;
+                        if rng.chance(1, 3) {
+                            ops.push(POp::Quiesce);
+                        }
+                    }
+                    // ... that ends in a random order, usually completely
+                    while !open.is_empty() && rng.chance(5, 6) {
+                        let k = rng.usize(open.len());
+                        ops.push(POp::Release(open.remove(k)));
+                        if rng.chance(1, 2) {
+                            ops.push(POp::Quiesce);
+                        }
+                    }
+                    ops.push(POp::Quiesce);
+                }
+                crate::cases::Case::P(PCase { initial, max, ops, sched: SchedCfg::random(&mut rng, 0) })
+            }),
+        });
+    }
     spaces.extend(crate::lsim::c14_spaces(tier));
     Plan {
         spaces,
-        rule: "P: the real ThreadPool driven by an acceptor task under the controlled scheduler. Systematic: initial 1..3 x max 1..4 x 1..6 submissions x every pattern of 'wait for quiescence between two submissions' x 15 (quick) / 200 (thorough) seeded schedules (modes: uniform, sticky, PCT-like priorities, acceptor burst, starved worker; bounded-bypass fairness); random: histories that also open gates (connections ending) between submissions. A run is distinct by (configuration, ops, hash of the context-switch sequence) and non-trivial when the schedule has >= 4 context switches. L: the real listen loop with pools {(1,1),(1,2),(1,3),(2,2),(2,3),(1,4),(3,4),(3,2)} x 2..6 long-lived connections x four arrival patterns (all connect then all send; one by one without waiting; one by one with a quiescence wait; connections ending in between) x 20 (quick) / 400 (thorough) seeded schedules; oracle: connections in service (first server-side I/O .. worker drops it) never exceed max_worker_threads at any event, and at quiescence an unserved connection implies max connections in service.".into(),
+        rule: "P: the real ThreadPool driven by an acceptor task under the controlled scheduler. Systematic: initial 1..3 x max 1..4 x 1..6 submissions x every pattern of 'wait for quiescence between two submissions' x 15 (quick) / 200 (thorough) seeded schedules (modes: uniform, sticky, PCT-like priorities, acceptor burst, starved worker; bounded-bypass fairness); larger pools (max 8..24, max..max+4 long-lived jobs); random: histories that also open gates (connections ending) between submissions; long histories of 3..8 waves of load that each drain (in random order) before the next. A run is distinct by (configuration, ops, hash of the context-switch sequence) and non-trivial when the schedule has >= 4 context switches. L: the real listen loop with pools {(1,1),(1,2),(1,3),(2,2),(2,3),(1,4),(3,4),(3,2)} x 2..6 long-lived connections x four arrival patterns (all connect then all send; one by one without waiting; one by one with a quiescence wait; connections ending in between) x 20 (quick) / 400 (thorough) seeded schedules; oracle: connections in service (first server-side I/O .. worker drops it) never exceed max_worker_threads at any event, and at quiescence an unserved connection implies max connections in service.".into(),
         level: "exploration",
         real: vec![
             "varlink::server::ThreadPool::{new, execute, drop, num_busy}",
